@@ -1669,7 +1669,7 @@ func (a *Activation) loopHead(li *loopInfo, st *State, rc string) (*State, strin
 	// function-level ghost variables may be assigned anywhere in the loop: they become arbitrary
 	if a.spec != nil && a.depth == 0 {
 		for _, g := range a.spec.GhostVars {
-			if old, ok := st.gvars[g.Name]; ok && old.K == KScalar {
+			if old, ok := st.gvars[g.Name]; ok && (old.K == KScalar || (old.K == KMapView && old.Map == nil)) {
 				nv := old
 				srt := old.Srt
 				if srt == "" {
